@@ -27,6 +27,8 @@ RENAMES = {
 SELF_NAMES = {"DDPDistributor", "HSDPDistributor", "HybridShardDistributor", "FSDPDistributor", "FullyShardDistributor", "Distributor"}
 
 DIST_COPIES = ["_distribute_buffer_sizes", "_split_local_dist_buffers", "_construct_distributed_buffers", "update_params", "all_gather_into_tensor", "merge_and_block_gradients"]
+# _construct_global_block_info_list is NOT a sibling pair: HybridShard iterates its non-empty local shards, HSDP all parameters
+# (the owner cut per parameter is checked directly: c14 `owners-cut-by-block-index-range`)
 
 
 def _tail_from_super_init(fi):
